@@ -10,6 +10,9 @@ import (
 var substTable = map[string]string{
 	"fmt.Errorf":  "Errorf",
 	"fmt.Sprintf": "Sprintf",
+	"context.WithValue": "WithValue",
+	"errors.Is":         "ErrorsIs",
+	"storj.io/drpc/drpcmanager.isConnectionReset": "NotConnReset",
 }
 
 // recvIfaceSubst maps methods to models that take the receiver wrapped in an interface.
